@@ -34,7 +34,13 @@ pub fn analyze_order(egraph: &EGraph, enode: &Expr) -> OrderKey {
         Order([keys, _]) | TopN([_, _, keys, _]) => x(keys).clone(),
         // plans that preserve order
         Proj([_, c]) | Filter([_, c]) | Window([_, c]) | Limit([_, _, c]) => x(c).clone(),
-        MergeJoin([_, _, _, _, _, r]) => x(r).clone(),
+        // merge join emits rows in the order of the join keys; the right keys of its output are
+        // only sorted if no row is padded with NULLs on the right side (inner and right outer)
+        MergeJoin([t, _, _, rkeys, _, _])
+            if matches!(egraph[*t].nodes[0], Inner | RightOuter) =>
+        {
+            x(rkeys).clone()
+        }
         SortAgg([_, _, c]) => x(c).clone(),
         // unordered for other plans
         _ => Box::new([]),
